@@ -29,6 +29,7 @@ type Gen struct {
 	items       []Item
 	nfresh      int
 	rangeCalls  int
+	nInterior   int
 	heapSort    map[string]string // heap array name -> SMT sort of the whole array
 	strLits     map[string]string
 	tags        map[string]int // type tag ids
